@@ -50,13 +50,17 @@ def run(ctx):
     ctx.extra["offers_accepted_by_impl"] = accepted
     ctx.extra["operator_sequences_from_model"] = len(hists)
     # 4. binding self-check: a falsified outcome must be rejected by the judge
-    good = next(t for t in traces if t["out"] == "ok" and t["mode"] == "gcm")
-    ctx.binding_selfcheck("AeadOpenTrace", good, lambda t: dict(t, out="ValueError"), "aead-open: accepted -> ValueError")
-    bad = next(t for t in traces if t["out"] == "ValueError" and t["mode"] == "ccm")
-    ctx.binding_selfcheck("AeadOpenTrace", bad, lambda t: dict(t, out="ok", pt=[]), "aead-open: rejected -> accepted")
+    okv = lambda t: verdicts[t["tid"]][1] == "ok"
+    good = ctx.pick(traces, lambda t: okv(t) and t["out"] == "ok" and t["mode"] == "gcm", "accepted gcm offer")
+    if good is not None:
+        ctx.binding_selfcheck("AeadOpenTrace", good, lambda t: dict(t, out="ValueError"), "aead-open: accepted -> ValueError")
+    bad = ctx.pick(traces, lambda t: okv(t) and t["out"] == "ValueError" and t["mode"] == "ccm", "rejected ccm offer")
+    if bad is not None:
+        ctx.binding_selfcheck("AeadOpenTrace", bad, lambda t: dict(t, out="ok", pt=[]), "aead-open: rejected -> accepted")
     if not quick:
-        good2 = next(t for t in traces if t["out"] == "ok" and t["mode"] == "ocb" and t["pt"])
-        ctx.binding_selfcheck("AeadOpenTrace", good2, lambda t: dict(t, pt=[t["pt"][0] ^ 1] + t["pt"][1:]), "aead-open: plaintext byte")
+        good2 = ctx.pick(traces, lambda t: okv(t) and t["out"] == "ok" and t["mode"] == "ocb" and t["pt"], "accepted ocb offer")
+        if good2 is not None:
+            ctx.binding_selfcheck("AeadOpenTrace", good2, lambda t: dict(t, pt=[t["pt"][0] ^ 1] + t["pt"][1:]), "aead-open: plaintext byte")
     ctx.rule = ("offers = operator sequences enumerated by TLC from sys/AeadChannel (all of depth <= 2; simulated depth 3-5 in the "
                 "thorough tier) applied to real sealed messages of 8 modes with random legal key/nonce/tag lengths and AAD/message "
                 "lengths from {0,1,15,16,17,31,32,33,48,64,100}; distinct = distinct offered (mode,key,nonce,aad,ct,tag,maclen)")
